@@ -611,7 +611,10 @@ fn stringify(
             // A:A will be R1C[0]:R1048576C[0]
             // So when we are forming the A1 range we need to strip the irrelevant information
             let full_row = *absolute_row1 && *absolute_row2 && (*row1 == 1) && (*row2 == LAST_ROW);
-            let full_column = *absolute_column1
+            // The whole sheet ($A$1:$XFD$1048576) is both: strip only the rows ($A:$XFD),
+            // stripping also the columns would leave just ":"
+            let full_column = !full_row
+                && *absolute_column1
                 && *absolute_column2
                 && (*column1 == 1)
                 && (*column2 == LAST_COLUMN);
@@ -660,7 +663,10 @@ fn stringify(
             // A:A will be R1C[0]:R1048576C[0]
             // So when we are forming the A1 range we need to strip the irrelevant information
             let full_row = *absolute_row1 && *absolute_row2 && (*row1 == 1) && (*row2 == LAST_ROW);
-            let full_column = *absolute_column1
+            // The whole sheet ($A$1:$XFD$1048576) is both: strip only the rows ($A:$XFD),
+            // stripping also the columns would leave just ":"
+            let full_column = !full_row
+                && *absolute_column1
                 && *absolute_column2
                 && (*column1 == 1)
                 && (*column2 == LAST_COLUMN);
